@@ -159,8 +159,14 @@ def _find_search_optimizations(filters):
 
     for filter_ in filters:
         # ("in" with a string value is a substring test: it names no values
-        # a shortcut could be derived from)
-        if filter_.op == "in" and isinstance(filter_.value, str):
+        # a shortcut could be derived from; neither does a value which is
+        # not a type name or ID at all)
+        if filter_.op == "in":
+            if not isinstance(filter_.value, tuple) or not all(
+                isinstance(value, str) for value in filter_.value
+            ):
+                continue
+        elif not isinstance(filter_.value, str):
             continue
 
         if filter_.property == "type":
